@@ -314,14 +314,25 @@ pub fn part(ctx: &mut Ctx) {
                 // four orders of magnitude above the normal duration
                 let sig = no_return_sig(&r.sig);
                 let (_, res) = Ctx::forked(Duration::from_secs(5), &sig, |_| check_row(t, r));
-                res
+                not_a_verdict_when_starved(res, obs)
             }
             None => {
                 obs.class("errmap.enum");
                 let sk = skip[case.table].clone();
                 let (_, res) = Ctx::forked(Duration::from_secs(5), &format!("errmap.no_return.{}", t.rust_enum), |_| check_enum(t, &sk));
-                res
+                not_a_verdict_when_starved(res, obs)
             }
         }
     });
+}
+
+/// a forked case that was slow without the signs of a spin (starved machine) is discarded, never a violation
+fn not_a_verdict_when_starved(res: Result<(), vcore::Failure>, obs: &mut Obs) -> Result<(), vcore::Failure> {
+    match res {
+        Err(f) if f.signature == "harness.slow" => {
+            obs.discarded = true;
+            Ok(())
+        }
+        r => r,
+    }
 }
